@@ -1805,6 +1805,13 @@ class CopyFlow:
                 return e["n"]
         return None
 
+    def touches_base(self, g):
+        """own method that reads / modifies the std:: base container of the class (e.g. a find-or-append helper)"""
+        key = ("tb", g.d["decl"])
+        if key not in self.memo:
+            self.memo[key] = any(x.get("k") == "MCall" and (x.get("obj") or {}).get("k") == "This" and x.get("ccls") and x["ccls"] != g.cls and x["ccls"].startswith("std::") for x in g.nodes())
+        return self.memo[key]
+
     def is_src(self, n, src):
         if src == "this":
             return n.get("k") == "This" or (n.get("k") == "Un" and n.get("op") == "*" and (n.get("e") or {}).get("k") == "This")
@@ -1989,6 +1996,10 @@ class CopyFlow:
                 elif kk_ == "MCall":
                     if cur.get("ccls") and cur["ccls"] != fn.cls and cur["ccls"].startswith("std::"):
                         through_base = True
+                    elif cur.get("ccls") == fn.cls:
+                        g_ = self.by_decl.get(cur.get("cdecl"))
+                        if g_ is not None and g_.body is not None and not copy_op_kind(g_) and self.touches_base(g_):
+                            through_base = True          # element handed out by an own look-up helper
                     cur = cur.get("obj") or {"k": "This"}
                 elif kk_ == "OpCall" and cur.get("a"):
                     if (cur.get("ccls") or cur.get("callee", "")).startswith("std::"):
@@ -2224,6 +2235,105 @@ def members_read_by_filters(facts, cls, by_decl):
     return mem
 
 
+CONTAINER_KILL = ("clear",)
+CONTAINER_APPEND = ("push_back", "emplace_back", "push_front", "emplace_front", "insert", "emplace")
+
+
+def container_reset_problems(fn, flow):
+    """Assign-like operation of a class whose state is its std:: base container: the previous elements of the target must be
+    dropped (clear() / whole-container assignment) on every path before elements are added or written, and elements are appended
+    by a forward traversal of the source.  -> (violations, incompletes, n_events)"""
+    viol, inc = [], []
+    cfg = fn.cfg
+    if cfg is None:
+        return viol, ["no CFG for %s" % fn.full], 0
+    kills, gens, whole, resizes = [], [], [], []
+
+    def rooted_in_this_base(e):
+        through, keyed = False, None
+        cur = e
+        for _ in range(12):
+            kk = cur.get("k")
+            if kk == "This":
+                return through, keyed
+            if kk == "Member":
+                cur = cur.get("b") or {}
+            elif kk == "MCall":
+                if cur.get("ccls") and cur["ccls"] != fn.cls and cur["ccls"].startswith("std::"):
+                    through = True
+                elif cur.get("ccls") == fn.cls:
+                    g = flow.by_decl.get(cur.get("cdecl"))
+                    if g is not None and g.body is not None and not copy_op_kind(g) and flow.touches_base(g):
+                        through, keyed = True, g.name
+                cur = cur.get("obj") or {"k": "This"}
+            elif kk == "OpCall" and cur.get("a"):
+                if (cur.get("ccls") or cur.get("callee", "")).startswith("std::"):
+                    through = True
+                cur = cur["a"][0]
+            elif kk in ("Un", "Cast"):
+                if kk == "Cast" and ("deque" in str(cur.get("to", "")) or "BaseClass" in str(cur.get("to", ""))):
+                    through = True
+                cur = cur.get("e") or {}
+            else:
+                return False, None
+        return False, None
+
+    def walk_loops(n, loops):
+        if not isinstance(n, dict):
+            return
+        k = n.get("k")
+        if k in ("For", "ForRange", "While", "Do"):
+            loops = loops + [n]
+        if k == "MCall":
+            o = n.get("obj") or {"k": "This"}
+            std = n.get("ccls") and n["ccls"] != fn.cls and n["ccls"].startswith("std::")
+            if o.get("k") == "This" and std and n.get("n") in CONTAINER_KILL:
+                kills.append(n)
+            elif o.get("k") == "This" and std and n.get("n") == "resize" and n.get("a") and "*" in flow.tags(n["a"][0], fn.params[0]["d"], {}, fn):
+                resizes.append(n)
+            elif o.get("k") == "This" and std and n.get("n") in CONTAINER_APPEND:
+                gens.append(("append", n, loops, None))
+            elif o.get("k") != "This":
+                thr, keyed = rooted_in_this_base(o)
+                if thr and not n.get("cconst"):
+                    gens.append(("element", n, loops, keyed))
+        if k in ("Assign", "OpCall") and (k == "Assign" or (n.get("op") == "=" and len(n.get("a", [])) == 2)):
+            lhs = n["lhs"] if k == "Assign" else n["a"][0]
+            if lhs.get("k") in ("Cast", "Un") and rooted_in_this_base(lhs)[0] and lhs.get("k") == "Cast":
+                whole.append(n)
+            elif lhs.get("k") == "Member" or lhs.get("k") == "OpCall":
+                thr, keyed = rooted_in_this_base(lhs)
+                if thr:
+                    gens.append(("element", n, loops, keyed))
+        for c in featlib.children(n):
+            walk_loops(c, loops)
+
+    walk_loops(fn.body, [])
+    for kind, n, loops, keyed in gens:
+        if any(cfg.stmt_dominates(kl["i"], n["i"]) for kl in kills + whole if "i" in kl and "i" in n):
+            pass
+        elif "i" not in n or cfg.block_of(n["i"]) is None:
+            inc.append("statement `%s` not found in the CFG" % render(n)[:60])
+        elif kind == "element" and not keyed and any(cfg.stmt_dominates(r_["i"], n["i"]) for r_ in resizes if "i" in r_):
+            inc.append("elements are overwritten after resize(<size of the source>) without clear(): whether every element is overwritten completely is not decided (`%s`)" % render(n)[:60])
+        else:
+            how = ("elements selected by the own look-up helper %s() are overwritten / appended" % keyed) if keyed else ("elements are appended" if kind == "append" else "existing elements are overwritten")
+            viol.append("line %s: %s (`%s`) without a clear() / whole-container assignment of the target on every path before it: sub-filters the target held before, and their order, survive the operation (any non-empty target whose names/order differ from the source)" % (n.get("l"), how, render(n)[:70]))
+        if kind == "append":
+            if not loops:
+                inc.append("append outside a loop (`%s`)" % render(n)[:60])
+                continue
+            lp = loops[-1]
+            if lp.get("k") == "ForRange":
+                continue
+            txt = render(lp.get("init") or {}) + " ; " + render(lp.get("inc") or {})
+            if re.search(r"rbegin|crbegin|\(--|--\)", txt):
+                viol.append("line %s: elements are appended while the source is traversed backwards (%s): the order of the sub-filters is reversed, 'last filter wins' picks the other filter" % (n.get("l"), txt[:80]))
+            elif lp.get("k") != "For" or "++" not in render(lp.get("inc") or {}):
+                inc.append("traversal order of the loop around `%s` not recognised" % render(n)[:60])
+    return viol, inc, len(gens) + len(whole)
+
+
 def analyse_copy_ops(ck, facts):
     ck.tu(facts)
     by_decl = {f.d["decl"]: f for f in facts.functions if "decl" in f.d}
@@ -2282,6 +2392,12 @@ def analyse_copy_ops(ck, facts):
             src = "this" if kind == "clone()" else f.params[0]["d"]
             T, unknown = flow.transfers(f, src)
             defects = dict(flow.last_defects)
+            if "<base>" in R_ and kind in ("move-assign", "clone(other)", "convert(other)"):
+                v_, i_, n_ = container_reset_problems(f, flow)
+                for x in i_:
+                    ck.incomplete("C06.container-reset", "%s: %s" % (key0, x))
+                if n_ or v_:
+                    ck.ob("C06.container-reset", key0, not v_, "; ".join(v_[:2]) or "%d container writes, each dominated by clear() / whole assignment; appends traverse the source forwards" % n_, f.file, f.line)
             for m in sorted(R_):
                 key = "%s/%s" % (key0, m)
                 if m in defects:
@@ -2336,8 +2452,9 @@ def run(tier):
     ck.rule("E6.mean-roles", "MeanFilter / MeanFilterBlocked / Global::MeanFilter: filter_rhs/def add c*_vec_dual with c = -<vector,_vec_prim>/_volume, filter_sol/cor add c*_vec_prim with c = [sol_mean] - <vector,_vec_dual>/_volume (per block component; global: frequency-weighted triple_dot summed over the communicator). Broken => mean not removed / not idempotent whenever prim != dual (any non-uniform mesh)", 16 * k)
     ck.rule("E4.map", "FilterChain, FilterSequence, TupleFilter, PowerFilter, Global::Filter: filter_X applies filter_X (same method) of every component exactly once, to the whole vector (chain/sequence, in declared order) resp. to the like-named sub-vector first()/rest()/local()", 65 * k)
 
-    ck.rule("E0.copy-ops", "move construction / move assignment / clone() / clone(other) / convert(other) of every filter class instantiate (driver tu/c06_copyops.cpp); a copy-like member that cannot be instantiated cannot hand the constraint over", 68)
-    ck.rule("C06.state-transfer", "sibling agreement of the copy-like operations: every data member that the filter_* methods of a class read (transitively through its own accessors) is defined, in each of move-ctor / move-assign / clone() / clone(other) / convert(other), from the SAME member of the source (directly, through the class's constructor parameter that initialises it, or recomputed from transferred members). Broken => the copy imposes a different constraint than the original as soon as that member is not at its default (e.g. ignore_nans=true, sol_mean != 0)", 138)
+    ck.rule("E0.copy-ops", "move construction / move assignment / clone() / clone(other) / convert(other) of every filter class instantiate (driver tu/c06_copyops.cpp); a copy-like member that cannot be instantiated cannot hand the constraint over", 73)
+    ck.rule("C06.state-transfer", "sibling agreement of the copy-like operations: every data member that the filter_* methods of a class read (transitively through its own accessors) is defined, in each of move-ctor / move-assign / clone() / clone(other) / convert(other), from the SAME member of the source (directly, through the class's constructor parameter that initialises it, or recomputed from transferred members). Broken => the copy imposes a different constraint than the original as soon as that member is not at its default (e.g. ignore_nans=true, sol_mean != 0)", 143)
+    ck.rule("C06.container-reset", "assign-like operations (move-assign, clone(other), convert(other)) of a filter whose state is its container base (FilterSequence): after the operation the container is a function of the source only - every append / element write is dominated (CFG) by clear() or a whole-container assignment of the target, and appends happen in a forward traversal of the source. Broken => a re-used, non-empty target keeps old sub-filters and its old order; with overlapping sub-filters another prescribed value wins", 6)
     extra = ("-DC06_WIDE",) if wide else ()
     facts = featlib.extract("tu/c06_filters.cpp", files=FILES, extra=extra)
     analyse(ck, facts, "", True)
